@@ -782,9 +782,18 @@ class DataAccessObject(HasGeneric[T]):
         :param state: The conversion state.
         :return: A dictionary of keyword arguments derived from the base DAO and mapping.
         """
-        base = self.__class__.__bases__[0]
+        # the nearest DAO ancestor that uses an alternative mapping (as in to_dao: it may be a grandparent)
+        base = None
+        for candidate in self.__class__.__mro__[1:]:
+            try:
+                if self.uses_alternative_mapping(candidate):
+                    base = candidate
+                    break
+            except Exception:
+                # Some bases may not be DAOs or may not have generic info; skip safely
+                continue
         base_kwargs: Dict[str, Any] = {}
-        if self.uses_alternative_mapping(base):
+        if base is not None:
             parent_dao = base()
             parent_mapper = sqlalchemy.inspection.inspect(base)
             for column in parent_mapper.columns:
